@@ -4,6 +4,7 @@ import Proofs.Lemmas.HierShapeQ
 import Proofs.Lemmas.HierShapeR
 import Proofs.Lemmas.HierShapeC
 import Proofs.Lemmas.HierShapeD
+import Proofs.Lemmas.HierNames
 import Generated.C08Walks
 /-!
 # C08 — instanceof, type hints, catch and dispatch follow the declared class hierarchy
@@ -676,5 +677,127 @@ theorem C08_walks_site_memo_counterexample :
   decide
 
 end Walks
+
+/-! ### Names: the name-based special cases of the deciders (round 7)
+
+`catchTypeMatches` gives the root interface `Throwable` a meaning beyond reachability, and which catch types count as
+"the root interface" is decided by a test on the SPELLING of the type name. `isThrownP p` is the decider with that test
+abstracted; the translator records every comparison of a type name with a string literal inside the deciders as
+`Generated.C08Walks.nameTests` (literal, kind of comparison), `NameKind.holds` says what a kind means on spellings. -/
+section Names
+
+/-- the pinned `catchTypeMatches` (`Model.Hier.isThrown`, what the driver runs) is the abstract decider with the test
+"the name IS `Throwable`" -/
+theorem C08_names_pinned_is_abstract (G : Graph) (t : Name) (c : Cls) :
+    isThrown G t c = isThrownP (fun t => decide (t = throwableName)) G t c := isThrownP_eq G t c
+
+/-- **catch (T) is exact iff the special-name test holds for the root interface's own name only.** If `p` holds for
+`Throwable` alone, `catch (T)` decides `IsA` on every acyclic hierarchy; if `p` holds for ANY other type name `t`, then
+already on the std hierarchy (`Exception implements Throwable`, `Error implements Throwable`) some object that is not a
+`t` is caught by `catch (t)`. -/
+theorem C08_names_catch_exact_iff (p : Name → Bool) :
+    (∀ (G : Graph), Acyclic G → ∀ (c : Cls), ThrowableOK G c → ∀ t,
+        (isThrownP p G t c = .yes ↔ IsA G c t) ∧ (isThrownP p G t c = .no ↔ ¬ IsA G c t)) ↔
+    (∀ t, p t = true → t = throwableName) := by
+  constructor
+  · intro h t hpt
+    apply Classical.byContradiction
+    intro hne
+    obtain ⟨c, _, hok, hnot, hyes⟩ := isThrownP_loose p t hpt hne
+    exact hnot ((h nmG nmG_acyclic c hok t).1.1 hyes)
+  · intro hp G hac c hok t
+    rcases isThrownP_spec p hp G hac.1 t c hok with ⟨h1, h2⟩ | ⟨h1, h2⟩
+    · rw [h1]; exact ⟨by simp [h2], by simp [h2]⟩
+    · rw [h1]; exact ⟨by simp [h2], by simp [h2]⟩
+
+/-- an exact comparison (`==`, `==` after stripping ONE leading backslash) holds only for the special name's own
+spelling, and does hold for it -/
+theorem C08_names_exact_kind (k : NameKind) (hk : k.exact = true) (s n : List Char) :
+    (k.holds s n = some true → n = s ∨ n = '\\' :: s) ∧ (stripLead s = s → k.holds s s = some true) :=
+  ⟨holds_exact k hk s n, holds_self k hk s⟩
+
+/-- **From spellings to catch.** Type names are spelled by an injective `nm`; the tables hold fully qualified names
+(no leading backslash). If the special-name test of `catchTypeMatches` is an EXACT comparison with the spelling of the
+root interface, `catch (T)` decides `IsA` on every acyclic hierarchy — whatever the user's types are called. -/
+theorem C08_names_catch_exact_spelling (nm : Name → List Char) (hinj : ∀ a b, nm a = nm b → a = b)
+    (k : NameKind) (hk : k.exact = true) (s : List Char) (hs : nm throwableName = s) (hfq : ∀ t, nm t ≠ '\\' :: s)
+    (G : Graph) (hac : Acyclic G) (c : Cls) (hok : ThrowableOK G c) (t : Name) :
+    (isThrownP (fun t => k.holds s (nm t) == some true) G t c = .yes ↔ IsA G c t) ∧
+    (isThrownP (fun t => k.holds s (nm t) == some true) G t c = .no ↔ ¬ IsA G c t) := by
+  refine ((C08_names_catch_exact_iff _).2 ?_) G hac c hok t
+  intro t ht
+  have ht' : k.holds s (nm t) = some true := by simpa using ht
+  rcases holds_exact k hk s (nm t) ht' with h | h
+  · exact hinj _ _ (h.trans hs.symm)
+  · exact absurd h (hfq t)
+
+/-- the comparisons of the pinned tree that are NOT exact: both strip the namespace (`App\Throwable` is taken for the
+root interface by `catch`, `App\Exception` / `App\Error` / `App\Throwable` catch every interpreter-raised error) — known
+findings `names:catch:ns-base-name`, `names:catch-internal:ns-base-name`, replayed by the harness on every run -/
+def knownLooseNameTests : List (String × String × NameKind) :=
+  [("data/type_class.go:Class.Is", "Error", .baseName),
+   ("data/type_class.go:Class.Is", "Exception", .baseName),
+   ("data/type_class.go:Class.Is", "Throwable", .baseName),
+   ("node/try.go:isThrowableTypeName", "Throwable", .suffixSep)]
+
+/-- obligation: every comparison of a type name with a string literal inside the subtype deciders is exact equality
+(possibly after stripping one leading backslash), except the recorded namespace-stripping ones -/
+theorem C08_names_obligation_exact : nameTestsOK knownLooseNameTests Generated.C08Walks.nameTests = true := by
+  first | decide | fail "obligation C08_names_obligation_exact no longer holds: a subtype decider (catchTypeMatches / isThrowableTypeName, Class.Is, isClassValueInstanceOf, extendISClass, interfaceExtends, instanceof, checkClassIs, checkInterfaceIs) compares a type name with a string literal by something looser than equality (suffix / prefix / substring / case-folded / unclassified): user types whose names merely resemble the special name get its semantics — see Generated.C08Walks.nameTests"
+
+/-- obligation: the root interface itself is still recognised by an exact test in `catchTypeMatches` -/
+theorem C08_names_obligation_root :
+    Generated.C08Walks.nameTests.any (fun t => t.fn = "node/try.go:isThrowableTypeName" && t.special = "Throwable" && t.kind.exact) = true := by
+  first | decide | fail "obligation C08_names_obligation_root no longer holds: node/try.go isThrowableTypeName no longer compares the catch type with \"Throwable\" by equality — see Generated.C08Walks.nameTests"
+
+def spThrowable : List Char := ['T', 'h', 'r', 'o', 'w', 'a', 'b', 'l', 'e']
+def spAppThrowable : List Char := ['A', 'p', 'p'] ++ spThrowable
+def spNsThrowable : List Char := ['A', 'p', 'p', '\\'] ++ spThrowable
+/-- spelling of the names used by the witnesses: 0 `Throwable`, 100 `AppThrowable`, 101 `App\Throwable` -/
+def spNm : Name → List Char
+  | 0 => spThrowable
+  | 100 => spAppThrowable
+  | 101 => spNsThrowable
+  | _ => []
+
+/-- negation witness (seeded change C08-catch-name-ends-in-throwable): the test is `HasSuffix(name, "Throwable")`; the
+user interface `AppThrowable` is taken for the root interface, and `catch (AppThrowable)` catches an `Exception` that
+does not reach it -/
+theorem C08_names_suffix_counterexample :
+    NameKind.suffix.holds spThrowable spAppThrowable = some true ∧ spAppThrowable ≠ spThrowable ∧
+    ∃ c, c ∈ nmG.classes ∧ ThrowableOK nmG c ∧ ¬ IsA nmG c 100 ∧
+      isThrownP (fun t => NameKind.suffix.holds spThrowable (spNm t) == some true) nmG 100 c = .yes ∧
+      isClassValue nmG 100 c = .no :=
+  ⟨by decide, by decide, by
+    obtain ⟨c, hc, hok, hnot, hyes⟩ :=
+      isThrownP_loose (fun t => NameKind.suffix.holds spThrowable (spNm t) == some true) 100 (by decide) (by decide)
+    exact ⟨c, hc, hok, hnot, hyes, decides_no (isClassValue_spec nmG nmG_acyclic.1 100 c) hnot⟩⟩
+
+/-- negation witnesses for the other loose kinds: each holds for a user name that is not the special name -/
+theorem C08_names_loose_kinds_counterexample :
+    NameKind.prefix.holds spThrowable (spThrowable ++ ['X']) = some true ∧
+    NameKind.contains.holds spThrowable (['M', 'y'] ++ spThrowable ++ ['X']) = some true ∧
+    NameKind.fold.holds spThrowable ('t' :: spThrowable.tail) = some true ∧
+    NameKind.suffixSep.holds spThrowable spNsThrowable = some true ∧
+    NameKind.baseName.holds spThrowable spNsThrowable = some true ∧
+    NameKind.eq.holds spThrowable spNsThrowable = some false ∧
+    NameKind.eqStripLead.holds spThrowable ('\\' :: spThrowable) = some true ∧
+    NameKind.eqStripLead.holds spThrowable spAppThrowable = some false := by decide
+
+/-- known finding `names:catch:ns-base-name` (pinned tree): the namespace-stripping test takes the user interface
+`App\Throwable` for the root interface -/
+theorem C08_names_namespace_counterexample :
+    ∃ c, c ∈ nmG.classes ∧ ThrowableOK nmG c ∧ ¬ IsA nmG c 101 ∧
+      isThrownP (fun t => NameKind.eq.holds spThrowable (spNm t) == some true ||
+                          NameKind.suffixSep.holds spThrowable (spNm t) == some true) nmG 101 c = .yes :=
+  isThrownP_loose _ 101 (by decide) (by decide)
+
+example : nameTestsOK [] [⟨"f", "Throwable", .eq⟩, ⟨"f", "Throwable", .eqStripLead⟩] = true := by decide
+example : nameTestsOK knownLooseNameTests [⟨"node/try.go:isThrowableTypeName", "Throwable", .suffix⟩] = false := by decide
+example : looseTests Generated.C08Walks.nameTests ≠ [] := by decide
+example : (fun t : Name => decide (t = throwableName)) 0 = true ∧ ∀ t, (fun t : Name => decide (t = throwableName)) t = true → t = throwableName := by
+  refine ⟨rfl, ?_⟩; intro t h; simpa using h
+
+end Names
 
 end C08
